@@ -92,11 +92,13 @@ type Report struct {
 	counters     map[string]int64
 	extra        map[string]any
 	journal      *os.File
+	lastCheckpoint time.Time
+	budget       float64
 }
 
 func NewReport(property string) *Report {
 	return &Report{
-		cfg: Env(), start: time.Now(), property: property,
+		cfg: Env(), start: time.Now(), lastCheckpoint: time.Now(), property: property,
 		distinct: map[string]struct{}{}, violBySig: map[string]int{},
 		counters: map[string]int64{}, extra: map[string]any{}, maxSamples: 4,
 	}
@@ -107,7 +109,45 @@ func (r *Report) Cfg() Config { return r.cfg }
 func (r *Report) Eval(n int) {
 	r.mu.Lock()
 	r.evaluations += int64(n)
+	due := time.Since(r.lastCheckpoint) > 5*time.Second
+	if due {
+		r.lastCheckpoint = time.Now()
+	}
 	r.mu.Unlock()
+	if due {
+		r.write(false) // partial report: a child that is killed later still leaves what it saw
+	}
+}
+
+// Enough reports that so many violations were already recorded that exploring further adds nothing
+// to the verdict (a violated run need not finish its case list; evidence shows the real counts).
+func (r *Report) Enough() bool {
+	r.mu.Lock()
+	defer r.mu.Unlock()
+	n := 0
+	for _, c := range r.violBySig {
+		n += c
+	}
+	return n >= 25
+}
+
+// OverBudget is a safety valve for overloaded machines: after VERIF_BUDGET_S seconds (set by the
+// driver well below its kill timeout) a harness stops generating further cases. It never influences a
+// verdict; the evidence counts only what actually ran and records the truncation.
+func (r *Report) OverBudget() bool {
+	if r.budget == 0 {
+		r.budget = -1
+		if v := os.Getenv("VERIF_BUDGET_S"); v != "" {
+			if f, err := strconv.ParseFloat(v, 64); err == nil && f > 0 {
+				r.budget = f
+			}
+		}
+	}
+	if r.budget > 0 && time.Since(r.start).Seconds() > r.budget {
+		r.Set("truncated_by_time_budget", true)
+		return true
+	}
+	return false
 }
 
 // Distinct records the signature of a non-trivial case; the evidence counts distinct signatures.
@@ -225,7 +265,9 @@ type shardReport struct {
 
 // Flush writes the shard report. Call it exactly once at the very end of the harness: the driver
 // treats a missing or incomplete report as a crashed child.
-func (r *Report) Flush() error {
+func (r *Report) Flush() error { return r.write(true) }
+
+func (r *Report) write(complete bool) error {
 	r.mu.Lock()
 	defer r.mu.Unlock()
 	d := make([]string, 0, len(r.distinct))
@@ -237,7 +279,7 @@ func (r *Report) Flush() error {
 		Property: r.property, Seed: r.cfg.Seed, Tier: r.cfg.Tier, Shard: r.cfg.Shard, NShards: r.cfg.NShards,
 		Evaluations: r.evaluations, Distinct: d, Samples: r.samples, Violations: r.violations,
 		ViolBySig: r.violBySig, Inconclusive: r.inconclusive, Counters: r.counters, Extra: r.extra,
-		WallS: time.Since(r.start).Seconds(), Complete: true,
+		WallS: time.Since(r.start).Seconds(), Complete: complete,
 	}
 	b, err := json.MarshalIndent(sr, "", " ")
 	if err != nil {
